@@ -151,6 +151,14 @@ def _finish(spec, out, box, outs, term, close_exc, exp_outs, exp_term):
             f"threads still running when the iterator was closed: {box['alive_after_close']}",
             signature=['alive_after_close', sorted({n.split('-')[0].split('_')[0] for _, n in box['alive_after_close']})],
         )
+    # "in bounded time": everything a case does serially costs at most the sum of its generated delays; polling intervals and
+    # internal timeouts of the code under test are <= 1 s each. A run far beyond that sat in some internal timeout it should not need.
+    n = max(1, spec['n'])
+    per_elem = max(spec.get('src_delays') or [0.0]) + max(spec.get('cons_delays') or [0.0]) + sum(max(stg.get('delays') or [0.0]) for stg in spec['stages'])
+    bound = n * per_elem + n * 0.5 + 30.0
+    elapsed = out.sim.now - out.sim.t0
+    if elapsed > bound:
+        raise Violation('too_slow', f'the case took {elapsed:.1f}s of virtual time; all its generated delays add up to at most {n * per_elem:.2f}s (bound with polling slack {bound:.1f}s): some step sat out an internal timeout', signature=['too_slow'])
     early = spec['consume']['kind'] != 'all' and term == 'stopped'
     failed = isinstance(term, list)
     sizes = []
